@@ -807,7 +807,7 @@ def r2_derivative_relations(ctx):
                                 key=f"C02-R2|{run.family}|{run.m_none}|rb {which} frequency selection", tag="mask")
                 # the selection restricts the frequency axis of each operand: columns of a response, entries of a frequency vector
                 bad = []
-                for base, ax, M, n_, is_store in worlds["pos"].selections:
+                for base, ax, M, n_, is_store in list(worlds["pos"].selections):          # (a copy: evaluating the bases below meets selections again)
                     try:
                         vals = worlds["pos"].value(base, None) if not is_store else worlds["pos"].array(S.sym_name(base), None) \
                             if S.sym_name(base) not in run.ids.values() else None
